@@ -5,7 +5,7 @@ Spec: spec/ReadSpec.tla; MC: mc/MC_ReadSpec (+ _quick/_thorough/_tree4/_tree6 cf
 spec -> code: every state with pc = "done" of MC_ReadSpec is a call together with the dictionary the specification
 demands; the survey tree is written as real FITS files from the pc = "file" states (cell values are TLC's), every call
 is executed by the real readspec and every returned array compared with TLC's.  pc = "appended" states are spec_append
-cases.  code -> spec: seeded random calls (request vectors up to 30 long on a 9-file tree, all conventions, all ways of
+cases.  code -> spec: seeded random calls (request vectors up to 40 long on a 9-file tree, all conventions, all ways of
 locating the tree), the spec_append calls readspec makes while serving them, and random spec_append calls are recorded
 and judged by TLC (Trace_ReadSpec).
 """
@@ -26,12 +26,12 @@ TABLES = ['plugmap', 'zans', 'tsobj']
 RUN2D, RUN1D, DRUN2D, DRUN1D = 'v5_7_0', 'v5_7_1', 'v9_9_9', 'v9_9_8'
 ENVVARS = ['BOSS_SPECTRO_REDUX', 'RUN2D', 'RUN1D', 'SPECTRO_MATCH', 'PHOTO_RESOLVE', 'SPECTRO_REDUX']
 DECOY = 6                    # decoy files carry the identity of file index + 6 (never a file of the tree)
-FITS_FORMAT = {'FIBERID': 'J', 'PLATE': 'J', 'MJD': 'J', 'CODE': 'J', 'MAG': '5E', 'Z': 'D', 'THETA': '3E',
-               'OBJID': 'K', 'FLUX': '2E'}
-IDENTITY_COLS = ('CODE', 'MAG', 'Z', 'THETA', 'OBJID', 'FLUX')
+FLOAT_COLS = ('MAG', 'Z', 'THETA', 'FLUX')      # floating-point columns of the data model; every other numeric one is integer
+KEEP_COLS = ('FIBERID', 'PLATE', 'MJD')          # not identity-coded: left alone in the decoy files
 CONVS = [('s', 's', 's'), ('s', 's', 'v'), ('s', 'o', 's'), ('s', 'o', 'v'),
          ('v', 'v', 's'), ('v', 'v', 'v'), ('v', 'o', 's'), ('v', 'o', 'v')]
 _W = {}                      # per-process state for pool workers (set before the fork)
+STRING_COLS = set()          # table columns whose specified cells are strings (learnt from TLC's file states)
 
 
 # --------------------------------------------------------------------------- TLC dump access
@@ -97,14 +97,28 @@ def _decoy(a, off):
     return np.where(a != 0, a + off * 1000000, a) if off else a
 
 
+def column_format(name, a):
+    """FITS format a writer would choose for this plate: the narrowest that holds every value of the column on THIS
+    file (strings: longest value; integers: int16 / int32 / int64; reals: float32 if exact, else float64).  Columns of
+    the same name therefore differ in dtype from file to file exactly where the spec's values need it."""
+    rep = '' if a.ndim == 1 else str(a.shape[1])
+    if a.dtype.kind in 'SU':
+        return '%dA' % max(1, max(len(x) for x in a.tolist()))
+    if name in FLOAT_COLS:
+        exact = np.array_equal(a.astype('f4').astype('f8'), a.astype('f8'))
+        return rep + ('E' if exact else 'D')
+    m = int(np.abs(a).max()) if a.size else 0
+    return rep + ('I' if m < 2**15 else 'J' if m < 2**31 else 'K')
+
+
 def _table(cols, off):
     from astropy.io import fits
     out = []
     for name, vals in cols.items():
         a = np.asarray(vals)
-        if name in IDENTITY_COLS:
-            a = _decoy(a, off)
-        out.append(fits.Column(name, FITS_FORMAT[name], array=a))
+        if off and name not in KEEP_COLS:
+            a = np.array([x + '_D' for x in a.tolist()]) if a.dtype.kind in 'SU' else _decoy(a, off)
+        out.append(fits.Column(name, column_format(name, a), array=a))
     return fits.BinTableHDU.from_columns(out)
 
 
@@ -176,6 +190,11 @@ def build_tree(ctx, cfg, name):
     os.remove(r['dump'])
     if not files:
         raise core.MachineryError('no file states in ' + cfg)
+    for fc in files:
+        for t in TABLES:
+            for c, col in (fc[t] or {}).items():
+                if col and isinstance(col[0], str):
+                    STRING_COLS.add(c)
     return write_tree(os.path.join(ctx.scratch, name), files)
 
 
@@ -219,8 +238,12 @@ def loc_kwargs(tree, call):
     return {}
 
 
+MEMS = ['plain', 'readonly', 'strided', 'swapped']
+
+
 def concretise(call, seed):
-    """Choose the Python containers for the three arguments (deterministic in the call and the seed)."""
+    """Choose the Python containers for the three arguments and the memory layout of the array ones (deterministic in
+    the call and the seed).  Spec: the outcome depends on the values only (MemIndependent)."""
     rng = random.Random(zlib.crc32(('%d|%s' % (seed, json.dumps(call, sort_keys=True))).encode()))
     conv = call['conv']
     allfib = len(call['f']) == 0
@@ -229,23 +252,48 @@ def concretise(call, seed):
         if len(call[a]) == 0:
             out[a] = 'omit'
         elif conv[a] == 's':
-            out[a] = rng.choice(['int', 'npint'] if (allfib and a == 'p') else ['int', 'int', 'npint', 'list', 'i4'])
+            out[a] = rng.choice(['int', 'npint', 'zerod'] if (allfib and a == 'p')
+                                else ['int', 'int', 'npint', 'zerod', 'list', 'i4'])
         else:
-            out[a] = rng.choice(['i4', 'i8'] if (allfib and a == 'p') else ['list', 'tuple', 'i4', 'i8'])
+            out[a] = rng.choice(['i4', 'i8'] if (allfib and a == 'p') else ['list', 'tuple', 'i4', 'i4', 'i8', 'i8'])
+    out['mem'] = {a: rng.choice(MEMS) for a in 'pmf'}
     return out
 
 
-def _container(kind, vals):
+def layout(a, mem):
+    """The same values in another memory layout: read-only, non-contiguous view, byte-swapped."""
+    if mem == 'readonly':
+        a = a.copy()
+        a.setflags(write=False)
+    elif mem == 'strided':
+        if a.ndim == 1:
+            big = np.full(2 * a.size + 1, -99, dtype=a.dtype)
+            big[::2][:a.size] = a
+            a = big[::2][:a.size]
+        else:
+            big = np.full((2 * a.shape[0], 2 * a.shape[1]), -99, dtype=a.dtype)
+            big[::2, ::2] = a
+            a = big[::2, ::2]
+    elif mem == 'fortran':
+        a = np.asfortranarray(a)
+    elif mem == 'swapped':
+        a = a.astype(a.dtype.newbyteorder())
+    return a
+
+
+def _container(kind, vals, mem='plain'):
     vals = [int(v) for v in vals]
     if kind == 'int':
         return vals[0]
     if kind == 'npint':
         return np.int32(vals[0])
+    if kind == 'zerod':
+        return layout(np.array(vals[0], dtype='i4'), mem if mem in ('readonly', 'swapped') else 'plain')
     if kind == 'list':
         return list(vals)
     if kind == 'tuple':
         return tuple(vals)
-    return np.array(vals, dtype=kind)
+    return layout(np.array(vals, dtype=kind), mem)
 
 
 def ints(a, scale=1):
@@ -280,21 +328,30 @@ def abstract(res, photo):
             return {'err': 'missing table ' + name, 'ret': {}}
         ret[name] = {}
         for c, col in res[name].items():
-            v = ints(col)
-            if v is None or np.asarray(col).ndim not in (1, 2):
-                return {'err': 'column %s.%s is not numeric' % (name, c), 'ret': {}}
+            col = np.asarray(col)
+            if col.ndim not in (1, 2):
+                return {'err': 'column %s.%s has %d dimensions' % (name, c, col.ndim), 'ret': {}}
+            if c in STRING_COLS:       # the spec's value is a string: anything else is reported as a (wrong) string
+                v = [x.decode('latin1') if isinstance(x, bytes) else (x if isinstance(x, str) else '?' + repr(x))
+                     for x in col.tolist()] if col.ndim == 1 else ['?2-d'] * len(col)
+                v = [x.rstrip(' ') for x in v]
+            else:
+                v = ints(col)
+                if v is None:
+                    v = [-1] * len(col)
             ret[name][c] = v
     return {'err': '', 'ret': ret}
 
 
 def run_readspec(tree, call, conc, hook=None):
     from pydl.pydlspec2d import spec1d
-    args = [_container(conc['p'], call['p'])]
+    mem = conc.get('mem', {})
+    args = [_container(conc['p'], call['p'], mem.get('p', 'plain'))]
     kw = loc_kwargs(tree, call)
     if conc['m'] != 'omit':
-        kw['mjd'] = _container(conc['m'], call['m'])
+        kw['mjd'] = _container(conc['m'], call['m'], mem.get('m', 'plain'))
     if conc['f'] != 'omit':
-        kw['fiber'] = _container(conc['f'], call['f'])
+        kw['fiber'] = _container(conc['f'], call['f'], mem.get('f', 'plain'))
     orig = spec1d.spec_append
     with loc_env(tree, call['loc']):
         try:
@@ -359,9 +416,13 @@ def compare(exp, obs):
     return ''
 
 
-def run_append(s1, s2, shift, dtype, omit_kw=False):
+APP_MEMS = ['plain', 'readonly', 'strided', 'fortran', 'swapped']
+
+
+def run_append(s1, s2, shift, dtype, omit_kw=False, mem=('plain', 'plain')):
     from pydl.pydlspec2d.spec1d import spec_append
-    a, b = np.array(s1, dtype=dtype), np.array(s2, dtype=dtype)
+    a, b = layout(np.array(s1, dtype=dtype), mem[0]), layout(np.array(s2, dtype=dtype), mem[1])
+    keep = (a.copy(), b.copy())
     try:
         r = spec_append(a, b) if (omit_kw and shift == 0) else spec_append(a, b, pixshift=shift)
     except Exception as ex:
@@ -369,6 +430,8 @@ def run_append(s1, s2, shift, dtype, omit_kw=False):
     v = ints(r)
     if v is None or np.asarray(r).ndim != 2:
         return {'err': 'result is not a 2-d numeric array', 'ret': []}
+    if not (np.array_equal(a, keep[0]) and np.array_equal(b, keep[1])):
+        return {'err': 'an input block was modified', 'ret': v}
     return {'err': '', 'ret': v}
 
 
@@ -380,16 +443,18 @@ def _mc_case(item):
     exp = plain(st['ret'])
     if st['pc'] == 'appended':
         bad = []
+        rng = random.Random(zlib.crc32(('%d|%s' % (_W['seed'], json.dumps(call, sort_keys=True))).encode()))
         for dtype, omit in (('f4', False), ('f8', True), ('i4', False), ('i2', True)):
-            obs = run_append(call['s1'], call['s2'], call['shift'], dtype, omit)
+            mem = (rng.choice(APP_MEMS), rng.choice(APP_MEMS))
+            obs = run_append(call['s1'], call['s2'], call['shift'], dtype, omit, mem)
             if obs['err'] or obs['ret'] != exp:
-                bad.append((dtype, obs))
+                bad.append((dtype + ' layouts %s/%s' % mem, obs, mem))
         out = {'k': k, 'kind': 'append-mc', 'ok': not bad, 'ncalls': 4, 'call': call,
                'nontriv': (len(call['s1'][0]) != len(call['s2'][0]) or call['shift'] != 0)}
         if bad:
             out.update(what='spec_append(%s, %s, pixshift=%d) dtype %s: expected %s observed %s' % (
                 call['s1'], call['s2'], call['shift'], bad[0][0], exp, bad[0][1]), expected=exp, observed=bad[0][1],
-                dtype=bad[0][0], finding=None)
+                dtype=bad[0][0].split()[0], mem=list(bad[0][2]), finding=None)
         return out
     tree = _W['tree4']
     conc = concretise(call, _W['seed'])
@@ -433,7 +498,7 @@ def _pool_map(fn, items, chunksize=8):
             yield r
 
 
-def validate_parallel(ctx, records, chunk=250, jobs=4):
+def validate_parallel(ctx, records, chunk=90, jobs=4):
     """core.validate_records with the chunks judged by several TLC processes at a time (Init of a Trace module is
     enumerated by one thread, so one TLC per chunk and a few chunks side by side).  Same contract: {index: why}."""
     from concurrent.futures import ThreadPoolExecutor
@@ -466,7 +531,7 @@ def gen_call(rng, meta):
         by_plate.setdefault(m['plate'], []).append(m)
     latest = {p: max(v, key=lambda x: x['mjd']) for p, v in by_plate.items()}
     cp, cm, cf = rng.choice(CONVS)
-    n = 1 if (cp == 's' and cf == 's') else rng.choice([1, 2, 2, 3, 4, 5, 6, 8, 11, 16, 23, 30])
+    n = 1 if (cp == 's' and cf == 's') else rng.choice([1, 2, 3, 4, 5, 6, 8, 11, 16, 17, 18, 20, 23, 27, 30, 34, 37, 40])
     if cp == 's':
         plate = rng.choice(sorted(by_plate))
         f = latest[plate] if cm == 'o' else rng.choice(by_plate[plate])
@@ -511,8 +576,9 @@ def gen_append(rng):
         return [[rng.choice([0, 0, 1, 2, 3, 5, -1, -7, 100, 32000]) for _ in range(p)] for _ in range(r)]
     dtype = rng.choice(['f4', 'f8', 'i4', 'i2', 'i8'])
     s1, s2 = block(r1, p1), block(r2, p2)
-    return {'kind': 'append', 's1': s1, 's2': s2, 'shift': shift, 'obs': run_append(s1, s2, shift, dtype, rng.random() < 0.5),
-            'dtype': dtype}
+    mem = (rng.choice(APP_MEMS), rng.choice(APP_MEMS))
+    return {'kind': 'append', 's1': s1, 's2': s2, 'shift': shift,
+            'obs': run_append(s1, s2, shift, dtype, rng.random() < 0.5, mem), 'dtype': dtype, 'mem': list(mem)}
 
 
 # --------------------------------------------------------------------------- the check
@@ -538,14 +604,32 @@ def run(ctx):
         'SPECTRO_MATCH / PHOTO_RESOLVE are set to non-existent directories except in the "bare" location mode',
         'fibre omitted is exercised only for scalar plates and ascending distinct plate arrays with the MJD omitted '
         '(request order is otherwise not defined); align= and znum= are outside the statement',
+        'table columns of the same name differ in FITS format from file to file (string width = longest value on the file, '
+        'int16/int32, float32/float64 as the file\'s values need); returned table values are compared after promotion, as values',
+        'array arguments are handed over plain / read-only / strided (Fortran-ordered for 2-d) / byte-swapped and scalars also as 0-d arrays, '
+        'rotated by seed; the specified outcome depends on the values only (MemIndependent)',
         'request vectors are exhaustive up to length 3 (quick) / 4 (thorough) over 4 files x 3 fibres; longer vectors '
-        '(<= 30, 9 files, all fibres) only in the recorded direction',
+        'of 17..40 elements with repeats come from the scrambled "long" family of MC_ReadSpec (both tiers) and from the recorded direction (<= 40, 9 files, all fibres)',
     ]
     _quiet()
-    tree4 = build_tree(ctx, 'MC_ReadSpec_tree4.cfg', 'tree4')
-    r = ctx.tlc('MC_ReadSpec.tla', 'MC_ReadSpec_quick.cfg' if ctx.quick else 'MC_ReadSpec_thorough.cfg',
-                dump=True, timeout=1500)
-    _W.update(tree4=tree4, seed=ctx.seed)
+    # the big TLC run works in the background while the recorded direction (which does not need it) is carried out
+    from concurrent.futures import ThreadPoolExecutor
+    bg = ThreadPoolExecutor(1)
+    fut = bg.submit(ctx.tlc, 'MC_ReadSpec.tla', 'MC_ReadSpec_quick.cfg' if ctx.quick else 'MC_ReadSpec_thorough.cfg',
+                    dump=True, timeout=1500)
+    try:
+        tree4 = build_tree(ctx, 'MC_ReadSpec_tree4.cfg', 'tree4')
+        _W.update(tree4=tree4, seed=ctx.seed)
+        recorded_direction(ctx)
+        r = fut.result()
+    finally:
+        bg.shutdown(wait=True)
+    mc_direction(ctx, r)
+    ctx.exhaustive = not ctx.quick
+
+
+def mc_direction(ctx, r):
+    """spec -> code: every final state of the TLC run executed by the real code."""
     items = list(enumerate(scan_dump(r['dump'], {'done', 'appended'})))
     os.remove(r['dump'])
     items = [(k, text) for k, (_, text) in items]
@@ -556,8 +640,8 @@ def run(ctx):
         # quick: every location / all-fibre / spec_append case and every request vector of length <= 2, plus a seeded
         # sample of the length-3 vectors located through the environment (thorough replays all)
         srng = random.Random(ctx.seed)
-        big = [it for it in items if 'loc |-> "env"' in it[1] and 'f |-> <<>>' not in it[1] and it[1].count('plate |->') >= 3]
-        keep = set(k for k, _ in srng.sample(big, min(len(big), 1200)))
+        big = [it for it in items if 'loc |-> "env"' in it[1] and 'f |-> <<>>' not in it[1] and 3 <= it[1].count('plate |->') < 17]
+        keep = set(k for k, _ in srng.sample(big, min(len(big), 600)))
         bigk = set(k for k, _ in big)
         items = [it for it in items if it[0] not in bigk or it[0] in keep]
     ctx.sample({'tlc_cases_total': ntlc, 'tlc_cases_replayed': len(items)})
@@ -572,15 +656,17 @@ def run(ctx):
         if not out['ok']:
             nviol += 1
             case = {'what': out['what'], 'kind': out['kind'], 'call': out['call'], 'concrete': out.get('concrete'),
-                    'dtype': out.get('dtype'), 'expected': out['expected'], 'observed': out['observed']}
+                    'dtype': out.get('dtype'), 'mem': out.get('mem'), 'expected': out['expected'], 'observed': out['observed']}
             ctx.violation(case, finding=out.get('finding'))
     del items
 
-    # ---- code -> spec: recorded calls judged by the specification --------------------------
+
+def recorded_direction(ctx):
+    """code -> spec: recorded calls judged by the specification."""
     tree6 = build_tree(ctx, 'MC_ReadSpec_tree6.cfg', 'tree6')
     _W.update(tree6=tree6)
     rng = random.Random(ctx.seed)
-    ncalls = 150 if ctx.quick else 1500
+    ncalls = 90 if ctx.quick else 1500
     calls = [gen_call(rng, tree6['meta']) for _ in range(ncalls)]
     results = sorted(_pool_map(_recorded_case, list(enumerate(calls)), chunksize=4), key=lambda x: x[0])
     recs, origin = [], []
@@ -592,9 +678,9 @@ def run(ctx):
         for a in inner[:1]:
             recs.append(a)
             origin.append({'kind': 'recorded-inner-append', 'from_call': calls[k]})
-    for _ in range(300 if ctx.quick else 3000):
+    for _ in range(250 if ctx.quick else 3000):
         a = gen_append(rng)
-        origin.append({'kind': 'recorded-append', 'dtype': a.pop('dtype')})
+        origin.append({'kind': 'recorded-append', 'dtype': a.pop('dtype'), 'mem': a.pop('mem')})
         recs.append(a)
     bad = validate_parallel(ctx, recs)
     ctx.evaluated(len(recs), 'recorded')
@@ -612,7 +698,6 @@ def run(ctx):
                        'kind': o['kind'], 'origin': o, 'record': rec if len(json.dumps(rec)) < 60000 else 'omitted', 'why': why},
                       finding=finding)
     ctx.sample({'recorded_call': origin[0], 'verdict': bad.get(0, 'accepted')})
-    ctx.exhaustive = not ctx.quick
 
 
 def replay(ctx, case):
@@ -624,7 +709,7 @@ def replay(ctx, case):
     kind = case.get('kind')
     if kind == 'append-mc':
         c = case['call']
-        obs = run_append(c['s1'], c['s2'], c['shift'], case.get('dtype') or 'f4')
+        obs = run_append(c['s1'], c['s2'], c['shift'], case.get('dtype') or 'f4', False, tuple(case.get('mem') or ('plain', 'plain')))
         print('replayed spec_append', c, '\nobserved:', obs, '\nexpected:', case['expected'])
         ctx.evaluated(1)
         if obs['err'] or obs['ret'] != case['expected']:
@@ -657,7 +742,8 @@ def replay(ctx, case):
         else:
             rec = case['record']
             if kind == 'recorded-append':
-                rec = dict(rec, obs=run_append(rec['s1'], rec['s2'], rec['shift'], case['origin'].get('dtype', 'f4')))
+                rec = dict(rec, obs=run_append(rec['s1'], rec['s2'], rec['shift'], case['origin'].get('dtype', 'f4'), False,
+                                           tuple(case['origin'].get('mem') or ('plain', 'plain'))))
         bad = core.validate_records(ctx, 'Trace_ReadSpec', [rec])
         ctx.evaluated(1)
         print('replayed recorded call; TLC verdict:', bad.get(0, 'accepted'))
